@@ -173,6 +173,9 @@ func prefixContains(a, b net.IP, plen int) bool {
 // declared subnet of the client's family that contains the client network
 // (addr/src) and is not longer than it; nil if none.
 func lpm(set []decl, fam int, addr net.IP, src int) *decl {
+	if fam == 2 && isMapped(addr) && src >= 96 {
+		return lpmMapped(set, addr, src)
+	}
 	var best *decl
 	for i := range set {
 		d := &set[i]
@@ -181,6 +184,34 @@ func lpm(set []decl, fam int, addr net.IP, src int) *decl {
 		}
 		if best == nil || d.plen > best.plen {
 			best = d
+		}
+	}
+	return best
+}
+
+var v4prefix = net.IP{0, 0, 0, 0, 0, 0, 0, 0, 0, 0, 0xff, 0xff}
+
+func isMapped(a net.IP) bool { return len(a) == 16 && a[:12].Equal(v4prefix) }
+
+// lpmMapped: an IPv6-family client network inside ::ffff:0:0/96 is the IPv4 network addr[12:]/(src-96); the
+// declared subnets of its address family are the IPv4 ones (held by every store at ::ffff:a.b.c.d/(96+n)).
+// The returned decl carries the length in the client's (IPv6) option family.
+func lpmMapped(set []decl, addr net.IP, src int) *decl {
+	var best *decl
+	for i := range set {
+		d := set[i]
+		if d.fam != 1 {
+			// every store treats ::ffff:0:0/96 as IPv4 space that IPv6 subnets (::/0 included) do not cover: the
+			// rearranger restarts the range table there and the CDB lookup skips IPv6-only prefix lengths
+			continue
+		}
+		d = decl{fam: 2, ip: append(append(net.IP{}, v4prefix...), d.ip...), plen: d.plen + 96, loc: d.loc}
+		if d.plen > src || !prefixContains(d.ip, addr, d.plen) {
+			continue
+		}
+		if best == nil || d.plen > best.plen {
+			dd := d
+			best = &dd
 		}
 	}
 	return best
